@@ -136,7 +136,31 @@ def run(ctx):
         ctx.check(not bad, "R5", f"no reduction or indexing along the wavelength axis in {qual}",
                   "wavelength-dependent value is reduced/indexed: " + "; ".join(ast.unparse(b)[:60] for b in bad),
                   fsite(ctx, qual), sample={"wavelength-dependent names": sorted(t)})
-    ctx.floor("R5", 11)
+    # the same with the wavelengths as an explicit numpy vector [lam1, lam2] and an energy-dependent isotope: arrays are
+    # objects here, so in-place updates of the caller's grid and state kept between calls are visible
+    from ptstat.symval import Vec
+    we = neutron_world(ctx, energy_dependent=("H1",))
+    Ie, Ae = we.I, we.atoms
+    compe = {Ae["element"]: q[0], Ae["element2"]: q[1], Ae["H1"]: q[2]}
+    lams = sp.symbols("lam1 lam2", positive=True)
+    nse = Ie.global_name("nsf", "neutron_scattering")
+    scal = [spec.unpack(Ie.call(nse, [dict(compe)], {"density": rho, "wavelength": l})) for l in lams]
+    Me = q[0] * mass_sym("Fe") + q[1] * mass_sym("O") + q[2] * mass_sym("H1")
+    grid = Vec(lams)
+    for call_no in (1, 2):
+        gvec = spec.unpack(Ie.call(nse, [dict(compe)], {"density": rho, "wavelength": grid}))
+        ctx.check(list(grid.items) == list(lams), "R5", f"the caller's wavelength array is left untouched (call {call_no})",
+                  f"the array now holds {_s(grid.items)}", site)
+        for k in spec.OUTPUTS:
+            v = gvec[k]
+            items = list(v.items) if isinstance(v, Vec) else [v, v]
+            if len(items) != 2:
+                ctx.fail("R5", f"{k}: one value per wavelength (call {call_no})", f"returned {_s(v)}", site)
+                continue
+            for j in (0, 1):
+                eq(ctx, "R5", f"{k}: explicit wavelength vector, element {j} = scalar call at that wavelength (call {call_no})",
+                   items[j], scal[j][k], site, nonzero=[rho * Me])
+    ctx.floor("R5", 41)
 
     # R6 signs: on the scattering kernel itself with opaque inputs, so that the structure
     # (abs, max(.,0), squares) is what decides the sign - not the particular composition
